@@ -7,13 +7,13 @@ import (
 	crand "crypto/rand"
 	"crypto/x509"
 	"crypto/x509/pkix"
-	"math/big"
-	"sync"
 	"encoding/binary"
 	"fmt"
 	"io"
+	"math/big"
 	"math/rand"
 	"strings"
+	"sync"
 	"time"
 
 	"github.com/gopcua/opcua/ua"
@@ -138,6 +138,11 @@ func garbageFrames(row *GRow, chanID, tokID, nextSeq uint32, rnd *rand.Rand) [][
 		return [][]byte{rawFrame("OPN", 'F', cat(le32(chanID), uaBytes([]byte("http://example.org/NoSuchPolicy#"+fmt.Sprint(rnd.Intn(1000)))), uaBytes(nil), uaBytes(nil), seqhdr(nextSeq), junk(50)))}
 	case "opn.junkcert":
 		return [][]byte{rawFrame("OPN", 'F', cat(le32(chanID), uaBytes([]byte(polURI)), uaBytes(junk(300)), uaBytes(junk(20)), seqhdr(nextSeq), junk(256)))}
+	case "opn.cert.stranger":
+		// a well-formed RSA certificate the receiver has never seen, plausible thumbprint, random body
+		st := keys.Get("3072a")
+		return [][]byte{rawFrame("OPN", 'F', cat(le32(chanID), uaBytes([]byte(polURI)), uaBytes(st.Cert), uaBytes(junk(20)), junk(384))),
+			rawFrame("OPN", 'F', cat(le32(chanID), uaBytes([]byte(polURI)), uaBytes(st.Cert), uaBytes(junk(20)), seqhdr(nextSeq), junk(100)))}
 	case "opn.eccert":
 		return [][]byte{rawFrame("OPN", 'F', cat(le32(chanID), uaBytes([]byte(polURI)), uaBytes(ecCert()), uaBytes(junk(20)), seqhdr(nextSeq), junk(256)))}
 	case "opn.nocert":
